@@ -147,7 +147,12 @@ def instance_store(idx, cls, selfkey="self"):
             interp.path.__dict__["_init_depth"] = cur
         return None
 
-    it = Interp(idx, types={selfkey: cls}, unknown_calls="residual",
+    # stores to names the class (or a base) defines as properties go through the setters, as they do in Python
+    props = set()
+    for c in idx.mro(cls):
+        props |= {f"{c.name}.{p}" for p in c.properties}
+        props |= {f"{cls}.{p}" for p in c.properties}
+    it = Interp(idx, types={selfkey: cls}, unknown_calls="residual", inline=props,
                 handlers={"super": lambda i, c, r, a, k: Obj("__super__"), "__super__.__init__": _super_init})
     a = fi.node.args
     args = {p.arg: Residual(p.arg) for p in (a.args[1:] + a.kwonlyargs)}
